@@ -49,6 +49,7 @@ type Contract struct {
 	Pure     bool
 	Wraps    bool // arithmetic intended to wrap: no range obligations
 	ModGoHeap bool // `modifies goheap`: the Go heap is unconstrained, ghost components are framed
+	InvokesMany bool // `invokes* p`: p is called any number of times: only its frame applies, its postconditions are not assumed
 	Invokes  string // `invokes p`: the (library) function calls its function-valued parameter p once, synchronously, with non-nil arguments
 	Trusted  bool
 	Refines  []string
@@ -385,10 +386,11 @@ func (ss *SpecSet) parseFile(path string, trusted bool, pkgName string) {
 			finish()
 			cur.NoBody = true
 			continue
-		case "invokes":
+		case "invokes", "invokes*":
 			finish()
 			if len(fields) > 1 {
 				cur.Invokes = fields[1]
+				cur.InvokesMany = fields[0] == "invokes*"
 			}
 			continue
 		case "seeds":
